@@ -24,7 +24,10 @@ CONSTANTS MaxDo,        \* number of Do actions per behaviour
           AllowPairs,   \* BOOLEAN: two-leaf change sets
           AllowSelective,\* BOOLEAN
           AllowReopen,  \* BOOLEAN: Close/Reopen actions (C12)
-          AllowSetLimit \* BOOLEAN: the limit preference may change in mid-session
+          AllowSetLimit,\* BOOLEAN: the limit preference may change in mid-session
+          AnyPairs,     \* BOOLEAN: two-leaf change sets need not be dependent
+          IgnoredNames  \* file names matched by the project's ignored_resources: a change touching only
+                        \* ignored resources is performed but not recorded (History._is_change_interesting)
 
 VARIABLES tree, init,
           chg,        \* Seq of [leaves, olds]; the id of a change is its index
@@ -144,21 +147,35 @@ Truncate(u) == IF Len(u) > limit THEN SubSeq(u, Len(u) - limit + 1, Len(u)) ELSE
 Dropped(u)  == IF Len(u) > limit THEN Range(SubSeq(u, 1, Len(u) - limit)) ELSE {}
 
 \* candidate change sets in the current tree
-KLeaves == { x \in AllLeaves : x.k \in LeafKinds }
+\* ignored resources are only used at the top level: an unrecorded change that lives inside a folder a
+\* recorded change created or moved would depend on history it is not part of (outside the contract)
+IgnoredOK(p) == IF p = NoPath THEN TRUE ELSE (p[Len(p)] \in IgnoredNames => Len(p) = 1)
+KLeaves == { x \in AllLeaves : x.k \in LeafKinds /\ IgnoredOK(x.p) /\ IgnoredOK(x.q)
+                              /\ (x.k = "MV" => (x.p[Len(x.p)] \notin IgnoredNames /\ x.q[Len(x.q)] \notin IgnoredNames)) }
 Singles == { <<l>> : l \in { x \in KLeaves : LeafEnabled(tree, x) } }
 
-\* Project.do(changes): perform, append, truncate to the limit, clear redo
+IsIgnored(p) == p[Len(p)] \in IgnoredNames
+Interesting(ls) == \E k \in 1..Len(ls) : \E p \in Touched(ls[k]) : ~IsIgnored(p)
+
+\* Project.do(changes): perform, append (if interesting), truncate to the limit, clear redo
+\* an unrecorded change (ignored resources only) must not build on recorded history
+UnrecordedIndependent(ls) ==
+  IF Interesting(ls) THEN TRUE
+  ELSE \A k \in 1..Len(chg) : Interesting(chg[k].leaves) =>
+          ~Related(UNION { Touched(ls[j]) : j \in 1..Len(ls) }, TouchedBy(chg[k]))
+
 Do(ls) ==
   /\ CanCall
   /\ Len(chg) < MaxDo
+  /\ UnrecordedIndependent(ls)
   /\ LET t2 == ApplyLeaves(tree, ls)
          id == Len(chg) + 1
-         u2 == Append(undo, id)
+         u2 == IF Interesting(ls) THEN Append(undo, id) ELSE undo
      IN /\ t2 # Poison
         /\ tree' = t2
         /\ chg' = Append(chg, [leaves |-> ls, olds |-> CaptureOlds(tree, ls)])
         /\ undo' = Truncate(u2)
-        /\ pushed' = pushed \cup Dropped(u2)
+        /\ pushed' = pushed \cup Dropped(u2) \cup (IF Interesting(ls) THEN {} ELSE {id})
         /\ redo' = << >>
         /\ err' = FALSE
         /\ trail' = Append(trail, Step("do", [leaves |-> ls, id |-> id], t2, Truncate(u2), << >>, FALSE, tainted))
@@ -171,7 +188,7 @@ DoPair(l1, l2) ==
   /\ CanCall
   /\ Len(chg) < MaxDo
   /\ LeafEnabled(tree, l1)
-  /\ Related(Touched(l2), Touched(l1))
+  /\ IF AnyPairs THEN l1 # l2 ELSE Related(Touched(l2), Touched(l1))
   /\ LeafLegal(LeafApply(tree, l1), l2)
   /\ LeafEnabled(LeafApply(tree, l1), l2)
   /\ Do(<<l1, l2>>)
